@@ -31,7 +31,7 @@ CLAIMED["C14"] = dict(
 
 CLAIMED["C15"] = dict(
     technique="static analysis: method whitelist (who-may-call) on the active deque, dominator-based guard polarity, loop-shape and poll-the-rest pairing over the MIR CFG, WAKE-1 may-analysis with one reasoned infeasible-path exception whose premises are checked",
-    text="Output order equals input order because the active window is only ever used as a FIFO (push_back/pop_front) and the head is popped only when its own check_ready is true; while the head is pending every other active item is polled before Pending is returned; the refill loop keeps exactly `capacity` items in flight and pushes the item it polled; Pending is never returned without a registered waker (one frozen exception: empty window and source not done, justified by NonZero capacity and checked); validated_seq_join chains validate_record(own index) to every item and keeps the validator alive. Decides queue discipline, not liveness over completion orders.",
+    text="Output order equals input order because the active window is only ever used as a FIFO (push_back/pop_front) and the head is popped only when its own check_ready is true; while the head is pending every other active item is polled before Pending is returned; the refill loop keeps exactly `capacity` items in flight and pushes the item it polled; Pending is never returned without a registered waker (one frozen exception: empty window and source not done, justified by NonZero capacity and checked); validated_seq_join chains validate_record(own index) to every item and keeps the validator alive; parallel_join is try_join_all (single-threaded build) or, in the spawner build, awaits one task result at a time and returns an error as soon as the result carrying it arrives (no further suspension point in between), pushing Ok values in arrival order. Decides queue discipline, not liveness over completion orders.",
     ref="§3 C15")
 
 CLAIMED["C16"] = dict(
@@ -50,7 +50,7 @@ CLAIMED["C04"] = dict(
     ref="§3 C04")
 CLAIMED["C05"] = dict(
     technique="static analysis: dominator ordering with await settlement and `?` edges (verify before release, same table), verdict-guard polarity of every hash comparison, field-order symmetry of writer/reader chains, constant relations on tag offsets",
-    text="Decides the detection wiring of the malicious shuffle: MAC tags are added before shuffling, verify_shuffle is awaited and `?`-propagated before the rows are released from the same table, each documented hash comparison is present, compares a local with a received hash and gates Ok; report fields are packed and unpacked in the same order and the tag is cut at the share's byte size. The permutation/multiset property and output-share consistency are numerical and not decided.",
+    text="Decides the detection wiring of the malicious shuffle: MAC tags are added before shuffling, verify_shuffle is awaited and `?`-propagated before the rows are released from the same table, each documented hash comparison is present, compares a local with a received hash and gates Ok; no Ok return of verify_shuffle or of a per-role verifier bypasses the key opening, a comparison or a hash send for any input (e.g. an empty output table), and the tags are recomputed with the opened keys; report fields are packed and unpacked in the same order and the tag is cut at the share's byte size. The permutation/multiset property and output-share consistency are numerical and not decided.",
     ref="§3 C05")
 
 CLAIMED["C11"] = dict(
@@ -99,7 +99,7 @@ CLAIMED["C17"] = dict(
 
 CLAIMED["C07"] = dict(
     technique="static analysis: expression-tree extraction from MIR (through await / ? / conversions) of the one-bit gadgets and finite evaluation of the extracted GF(2) polynomials over all input combinations against reference truth tables; exact integer-polynomial identity of the replicated multiplication summed over the three helpers; def-use and dominance checks for carry-in constants, returned values and the ripple-loop wiring",
-    text="Decides the gadget algebra and the wiring only: bit_adder / bit_subtractor equal the full adder (of x, !y, c) on all 8 inputs and read the incoming carry before overwriting it; or / bool_or / select equal OR / the multiplexer on all inputs; the three local shares of the semi-honest multiplication add up to the product as a polynomial identity, are sent left / received right and assembled as (local, received); each comparison / subtraction / addition entry point starts from the carry-in that two's-complement arithmetic requires (geq, sub, sat_sub: 1; gt, add, sat_add: 0), passes (x, y) in order and returns the threaded carry / the circuit bits / select(carry, diff, 0) / or(sum, carry); the ripple loops zip x with y padded by ZERO, narrow per bit index and push outputs in order; share_known_value and the semi-honest reshare are consistent replicated sharings of the right value (polynomial identities over the three role arms); the aggregation tree grows sums by the carry exactly while they are narrower than the output width and saturates from then on. Operands are identified by parameter position, not by name. Share conversion, the PRF, integer multiplication and vectorised layouts are NOT decided; no circuit is executed.",
+    text="Decides the gadget algebra and the wiring only: bit_adder / bit_subtractor equal the full adder (of x, !y, c) on all 8 inputs and read the incoming carry before overwriting it; or / bool_or / select equal OR / the multiplexer on all inputs; the three local shares of the semi-honest multiplication add up to the product as a polynomial identity, are sent left / received right and assembled as (local, received); each comparison / subtraction / addition entry point starts from the carry-in that two's-complement arithmetic requires (geq, sub, sat_sub: 1; gt, add, sat_add: 0), passes (x, y) in order and returns the threaded carry / the circuit bits / select(carry, diff, 0) / or(sum, carry); the ripple loops zip x with y padded by ZERO, narrow per bit index and push outputs in order; share_known_value and the semi-honest reshare are consistent replicated sharings of the right value (polynomial identities over the three role arms); the aggregation tree grows sums by the carry exactly while they are narrower than the output width and saturates from then on, and the cross-shard histogram merge is the saturating addition. Operands are identified by parameter position, not by name. Share conversion, the PRF, integer multiplication and vectorised layouts are NOT decided; no circuit is executed.",
     ref="§3 C07")
 
 CLAIMED["C01"] = dict(
